@@ -3,7 +3,7 @@
 import json, os, glob
 
 root = "/verif/seeded"
-rounds = {"r1": [], "r2": [], "r3": []}
+rounds = {"r1": [], "r2": [], "r3": [], "r4": []}
 for d in sorted(glob.glob(f"{root}/*/meta.json")):
     name = os.path.basename(os.path.dirname(d))
     m = json.load(open(d))
@@ -25,9 +25,10 @@ titles = {
     "r1": "Round 1 (40 changes; directories `<ID>-<n>`)",
     "r2": "Round 2 (40 changes; directories `r2-<ID>-<n>`; agents told which ideas were used in round 1)",
     "r3": "Round 3 (32 changes; directories `r3-<ID>-<n>`; agents told which ideas were used in rounds 1 and 2)",
+    "r4": "Round 4 (8 changes for the properties with the lowest first-contact rates; directories `r4-<ID>-<n>`)",
 }
 tot = 0
-for rnd in ("r1", "r2", "r3"):
+for rnd in ("r1", "r2", "r3", "r4"):
     items = rounds.get(rnd, [])
     if not items:
         continue
